@@ -51,10 +51,13 @@ package unserializers
 //@   invariant L0: (arr(nl.Nodes) == nil || fresh(arr(nl.Nodes))) && (arr(nl.Edges) == nil || fresh(arr(nl.Edges))) && (arr(nl.RootElements) == nil || fresh(arr(nl.RootElements)))
 
 //@ func SPDX23.Unserialize
-//@   props C04, C03
+//@   props C04, C03, C05
 //@   assigns \nothing
 //@   ensures [C04:unserialize:oneOf] (result1 == nil) != (result0 == nil)
 //@   ensures [C04:unserialize:complete] result1 == nil ==> result0.Metadata != nil && result0.NodeList != nil
+//@   ensures [C05:spdx:closed] result1 == nil && (forall j int :: 0 <= j && j < len(spdxdoc(r).Relationships) ==> (spdxdoc(r).Relationships[j].RefB.ElementRefID in fieldset(result0.NodeList.Nodes, Id)) && (!(spdxdoc(r).Relationships[j].RefA.ElementRefID == "DOCUMENT" && strings.EqualFold(spdxdoc(r).Relationships[j].Relationship, "DESCRIBES")) ==> (spdxdoc(r).Relationships[j].RefA.ElementRefID in fieldset(result0.NodeList.Nodes, Id)))) ==> sbom.closedRoots(result0.NodeList) && sbom.closedEdges(result0.NodeList)
+//@   invariant L3: [C05:inv] (forall j int :: 0 <= j && j < len(spdxDoc.Relationships) ==> (spdxDoc.Relationships[j].RefB.ElementRefID in fieldset(bom.NodeList.Nodes, Id)) && (!(spdxDoc.Relationships[j].RefA.ElementRefID == "DOCUMENT" && strings.EqualFold(spdxDoc.Relationships[j].Relationship, "DESCRIBES")) ==> (spdxDoc.Relationships[j].RefA.ElementRefID in fieldset(bom.NodeList.Nodes, Id)))) ==> sbom.closedRoots(bom.NodeList) && sbom.closedEdges(bom.NodeList)
+//@   invariant L3: [C05:inv] !(nil in elems(bom.NodeList.Edges)) && spdxDoc == spdxdoc(r) && bom != nil && bom.NodeList != nil
 //@   ensures [C03:spdx:read:roots] result1 == nil ==> (forall j int :: 0 <= j && j < len(spdxdoc(r).Relationships) && (spdxdoc(r).Relationships[j].RefA.ElementRefID == "DOCUMENT" && strings.EqualFold(spdxdoc(r).Relationships[j].Relationship, "DESCRIBES")) ==> (spdxdoc(r).Relationships[j].RefB.ElementRefID in elems(result0.NodeList.RootElements)))
 //@   invariant L3: [C03:inv] forall j int :: 0 <= j && j < _i && (spdxDoc.Relationships[j].RefA.ElementRefID == "DOCUMENT" && strings.EqualFold(spdxDoc.Relationships[j].Relationship, "DESCRIBES")) ==> (spdxDoc.Relationships[j].RefB.ElementRefID in elems(bom.NodeList.RootElements))
 //@   ensures [C03:spdx:read:packages] result1 == nil ==> (forall i int :: 0 <= i && i < len(spdxdoc(r).Packages) && spdxdoc(r).Packages[i] != nil ==> (spdxdoc(r).Packages[i].PackageSPDXIdentifier in fieldset(result0.NodeList.Nodes, Id)))
